@@ -48,14 +48,4 @@ theorem call_enabled (g : String → Int) (f : Nat) (l st : List Int) :
       step_const, b2i_true_ne, h, if_false, wrap32_small, List.take, List.reverse_nil, List.nil_append, List.replicate]
     simp [callRet]
 
-/-- the regenerated `$heap_alignment8` computes the model's `align8` -/
-theorem gen_alignment8 (g : String → Int) (n : Nat) (h : n ≤ 1073741824) :
-    callFn funcs g "heap_alignment8" [(n : Int)] = some [((align8 n : Nat) : Int)] := by
-  have := call_alignment8 g 388 [] [] (n : Int) (by omega) (by omega)
-  unfold callFn
-  simp only [List.reverse_cons, List.reverse_nil, List.nil_append] at this ⊢
-  rw [this]
-  simp [find_alignment8, f_heap_alignment8, align8]
-  omega
-
 end WaVerif.C10.GenProps
